@@ -4,6 +4,7 @@
    unreachable!() and unrecoverable!() panic in both modes.  debug_assert! panics in Debug
    only.  Definitions only. *)
 Require Import Base Syntax Consts.
+Require Import gen.PstFacts.
 Open Scope string_scope.
 Open Scope list_scope.
 
@@ -216,5 +217,51 @@ Fixpoint nodes_of (md : mode) (allow_ub : bool) (ts : list tree) : outcome (list
       else nodes_of md allow_ub r
   end.
 
-Definition pst_to_ast (md : mode) (allow_ub : bool) (idl : tree) : outcome (list node) :=
+Definition pst_to_ast_raw (md : mode) (allow_ub : bool) (idl : tree) : outcome (list node) :=
   nodes_of md allow_ub (t_kids idl).
+
+(* ---- the helper `children` of pst.rs (after the repair of the positional reads): every read by
+   position inside a declaration skips COMMENT pairs.  That is the raw conversion above applied
+   to the tree with those pairs removed: everywhere inside constants, structs, struct fields,
+   functions, errors, parameters, parameter types and array brackets; inside an interface the
+   comments before the `iname` header and inside it are removed, the comments between members
+   stay (they may be documentation). ---- *)
+Fixpoint strip_deep (t : tree) : tree :=
+  match t with
+  | T r s ks =>
+      T r s ((fix go (l : list tree) : list tree :=
+                match l with
+                | [] => []
+                | k :: l' => if is_rule "COMMENT" k then go l' else strip_deep k :: go l'
+                end) ks)
+  end.
+
+Fixpoint drop_comments (l : list tree) : list tree :=
+  match l with
+  | [] => []
+  | k :: l' => if is_rule "COMMENT" k then drop_comments l' else l
+  end.
+
+Definition strip_iface (t : tree) : tree :=
+  match t with
+  | T r s (kw :: rest) =>
+      match drop_comments rest with
+      | header :: ms => T r s (kw :: strip_deep header :: map (fun m => if is_rule "COMMENT" m then m else strip_deep m) ms)
+      | [] => T r s [kw]
+      end
+  | _ => t
+  end.
+
+Definition strip_top (t : tree) : tree :=
+  if is_rule "interface" t then strip_iface t
+  else if is_rule "struct" t || is_rule "const" t then strip_deep t
+  else t.
+
+Definition strip_idl (t : tree) : tree :=
+  match t with T r s ks => T r s (map strip_top ks) end.
+
+(* the tree the conversion effectively reads *)
+Definition canon (t : tree) : tree := if pst_skips_comments then strip_idl t else t.
+
+Definition pst_to_ast (md : mode) (allow_ub : bool) (idl : tree) : outcome (list node) :=
+  pst_to_ast_raw md allow_ub (canon idl).
